@@ -7,6 +7,7 @@ import TmVerif.Master.SrvState
 import TmVerif.Master.LoaderDecode
 import TmVerif.Traits.Model
 import TmVerif.Master.Events
+import TmVerif.Master.LoaderOps
 open TmVerif TmVerif.Proto TmVerif.Sched TmVerif.Master
 
 def sortNats (l : List Nat) : List Nat := (l.toArray.qsort (· < ·)).toList
@@ -404,6 +405,151 @@ def line (ws : List String) : Option String :=
   | _ => none
 end EventLines
 
+/-! Handler-level lines (`TmVerif.LoaderOps`): the calls a loader handler makes into the cell / the store, derived
+    from the inputs the harness captured at the call boundary; printed `;`-separated in the textual form of the
+    recorded lines (`-` = none), `assertion` = the handler's assertion fails.
+      attrs  = m,c,d,label,traits,parent | ~          loadin = <rec attrs> <parentLoaded> <nodeExists> <recst|-> <recsince> <present> <now> <v|~>
+      fops adjust <sid> <st0> <since0> <recst|-> <recsince> <present> <now>
+      fops validuntil <sid> <present> <v|~>
+      fops load <sid> <loadin>
+      fops remove <sid> <loaded>
+      fops reload <sid> <cur attrs> <placed app:exists csv> <loadin>
+      fops presence <id:state csv> <present ids csv> <sub>*      sub = adjust|… / reload|… / validuntil|… (args joined by `|`)
+      fops loadapp <aid> <manifest|~> <inCell> <match:prio:alloc csv> <default alloc> <blacklist matches csv>
+                   manifest = prio|~/m,c,d/aff/limits/group|none/once/retention|none/lease/traits
+      fops idg <existing ids csv> <stored id:(e|n|<count>) csv>
+      fops blacklist <app:matchbits csv>   (one 0/1 per entry of the new list, `-` = empty list)   -> <app:flag csv> -/
+namespace OpsLines
+open TmVerif.LoaderOps TmVerif.LoaderDecode
+
+def showOp : Op → String
+  | .addServer s p cap l t v => s!"server {s} {p} {showVec cap} {l} {t} {v}"
+  | .detachServer s => s!"detach {s}"
+  | .serverRemoveAll s => s!"removeall {s}"
+  | .setState s st since => s!"state {s} {showState st} {since}"
+  | .setValidUntil s v => s!"validuntil {s} {v}"
+  | .addApp a =>
+    let lims := showCsv (a.limits.map (fun p => s!"{p.1}:{p.2}"))
+    s!"app {a.id} {a.prio} {showVec a.demand} {a.aff} {lims} {showOpt a.retention} {a.lease} {showOpt a.group} {showBool a.schedOnce} {a.traits} {a.alloc}"
+  | .updateApp a al p r b => s!"updapp {a} {al} {p} {showOpt r} {showBool b}"
+  | .setBlacklisted a b => s!"bl {a} {showBool b}"
+  | .configureGroup g n => s!"idg {g} {n}"
+  | .removeGroup g => s!"rmidg {g}"
+  | .addBucket b p l => s!"bucket {b} {p} {l}"
+  | _ => "?"
+
+def showCall : LCall → String
+  | .cell op => showOp op
+  | .write (.mkNode s) => s!"w mk:{s}"
+  | .write w => "w " ++ (showWrite w).getD "?"
+  | .restoreOne s r => s!"restoreone {s} {showBool r}"
+  | .masterRemoveApp a => s!"mrmapp {a}"
+
+def showCalls (l : List LCall) : String :=
+  if l.isEmpty then "-" else String.intercalate ";" (l.map showCall)
+
+def pAttrs (t : String) : Option (Option SrvAttrs) :=
+  if t = "~" then some none else
+  match (t.splitOn ",").mapM String.toInt? with
+  | some [m, c, d, l, tr, p] => some (some { cap := (m, c, d), label := l.toNat, traits := tr.toNat, parent := p.toNat })
+  | _ => none
+
+def pRec (rst rsince : String) : Option SrvState.Rec :=
+  if rst = "-" then some none else do pure (some (← SrvLines.pS rst, ← rsince.toInt?))
+
+def pAdj (ws : List String) : Option (Nat × AdjIn) :=
+  match ws with
+  | [sid, st, since, rst, rsince, pres, now] => do
+    pure (← sid.toNat?, { cur := { state := ← SrvLines.pS st, since := ← since.toInt? }, stored := ← pRec rst rsince,
+                          present := ← bool? pres, now := ← now.toInt? })
+  | _ => none
+
+/-- `(present, v)`; `~` = no `RebootBucket.add` happened during the call: passed on as -1, a timestamp no reboot
+    bucket carries, so that a model that expects the call prints a line the recording does not have -/
+def pVu (pres v : String) : Option (Bool × Int) := do
+  let p ← bool? pres
+  if v = "~" then some (p, -1) else pure (p, ← v.toInt?)
+
+def pLoadIn (ws : List String) : Option LoadIn :=
+  match ws with
+  | [rec, pl, ne, rst, rsince, pres, now, v] => do
+    let a ← pAttrs rec
+    let pl ← bool? pl
+    let pv ← pVu pres v
+    pure { srec := a.map (fun x => { attrs := x, parentLoaded := pl }), nodeExists := ← bool? ne,
+           prec := ← pRec rst rsince, present := pv.1, now := ← now.toInt?, validUntil := pv.2 }
+  | _ => none
+
+def pReload (ws : List String) : Option (Nat × ReloadIn) :=
+  match ws with
+  | sid :: cur :: placed :: rest => do
+    let pl ← (csv placed).mapM (fun t => match t.splitOn ":" with
+      | [a, e] => do pure ((← a.toNat?), (← bool? e))
+      | _ => none)
+    pure (← sid.toNat?, { cur := ← pAttrs cur, placed := pl, load := ← pLoadIn rest })
+  | _ => none
+
+def pSub (t : String) : Option Sub :=
+  match t.splitOn "|" with
+  | "adjust" :: rest => do let r ← pAdj rest; pure (.adjust r.1 r.2)
+  | "reload" :: rest => do let r ← pReload rest; pure (.reload r.1 r.2)
+  | ["validuntil", sid, pres, v] => do let pv ← pVu pres v; pure (.validUntil (← sid.toNat?) pv.1 pv.2)
+  | _ => none
+
+def pManifest (t : String) : Option (Option Manifest) :=
+  if t = "~" then some none else
+  match t.splitOn "/" with
+  | [prio, dem, aff, lims, grp, once, ret, lease, tr] => do
+    let p : Option Int ← (if prio = "~" then some none else do pure (some (← prio.toInt?)))
+    pure (some { prio := p, demand := ← parseVec dem, aff := ← aff.toNat?, limits := ← parseLimits lims,
+                 group := ← optNat? grp, schedOnce := ← bool? once, retention := ← optInt? ret,
+                 lease := ← lease.toInt?, traits := ← tr.toNat? })
+  | _ => none
+
+def showRes : Option (List LCall) → String
+  | some l => showCalls l
+  | none => "assertion"
+
+def line (ws : List String) : Option String :=
+  match ws with
+  | "fops" :: "adjust" :: rest => do let r ← pAdj rest; pure (showCalls (adjustCalls r.1 r.2))
+  | ["fops", "validuntil", sid, pres, v] => do
+    let pv ← pVu pres v; pure (showCalls (validUntilCalls (← sid.toNat?) pv.1 pv.2))
+  | "fops" :: "load" :: sid :: rest => do pure (showCalls (loadCalls (← sid.toNat?) (← pLoadIn rest)))
+  | ["fops", "remove", sid, loaded] => do pure (showCalls (removeCalls (← sid.toNat?) (← bool? loaded)))
+  | "fops" :: "reload" :: rest => do let r ← pReload rest; pure (showRes (reloadCalls r.1 r.2))
+  | "fops" :: "presence" :: servers :: present :: subs => do
+    let sv ← (csv servers).mapM (fun t => match t.splitOn ":" with
+      | [i, st] => do pure ((← i.toNat?), (← SrvLines.pS st))
+      | _ => none)
+    let pr ← natList? present
+    let ss ← subs.mapM pSub
+    pure (showRes (presenceCalls sv (fun n => pr.contains n) ss))
+  | ["fops", "loadapp", aid, man, inCell, asg, dflt, bl] => do
+    let m ← pManifest man
+    let asg ← (csv asg).mapM (fun t => match t.splitOn ":" with
+      | [mt, p, al] => do pure ({ isMatch := ← bool? mt, prio := ← p.toInt?, alloc := ← al.toNat? } : Assign)
+      | _ => none)
+    let bl ← (csv bl).mapM bool?
+    pure (showCalls (loadAppCalls (← aid.toNat?) m (← bool? inCell) asg (← dflt.toNat?) bl))
+  | ["fops", "idg", existing, stored] => do
+    let st ← (csv stored).mapM (fun t => match t.splitOn ":" with
+      | [g, d] => do
+        let dd : Option (Option Nat) ← (if d = "e" then some none else if d = "n" then some (some none)
+                                         else do pure (some (some (← d.toNat?))))
+        pure ((← g.toNat?), dd)
+      | _ => none)
+    pure (showCalls (identityGroupCalls (← natList? existing) st))
+  | ["fops", "blacklist", apps] => do
+    let ap ← (csv apps).mapM (fun t => match t.splitOn ":" with
+      | [a, bits] => do
+        let ms ← (if bits = "-" then some [] else bits.toList.mapM (fun ch => if ch = '1' then some true else if ch = '0' then some false else none))
+        pure ((← a.toNat?), ms)
+      | _ => none)
+    pure (showCsv ((blacklistFlags ap).map (fun q => s!"{q.1}:{showBool q.2}")))
+  | _ => none
+end OpsLines
+
 def stepLine' (s : DSt) (ws : List String) : DSt × String :=
   match ws with
   | w :: _ =>
@@ -413,6 +559,8 @@ def stepLine' (s : DSt) (ws : List String) : DSt × String :=
       (s, (EventLines.line ws).getD "bad-op")
     else if w = "ftrt" || w = "fcode" then
       (s, (TraitLines.line ws).getD "bad-op")
+    else if w = "fops" then
+      (s, (OpsLines.line ws).getD "bad-op")
     else if w = "fapp" || w = "fbkt" || w = "fsrv" || w = "fidg" || w = "frld" || w = "falloc" then
       (s, (DecodeLines.line ws).getD "bad-op")
     else stepLine s ws
